@@ -94,6 +94,12 @@ def c07():
     qs.append(Q("op09_quotient_16bit", "C07_opcodes.cpp", "vh_opcode", {"OPC": 9, "IMPL": 0, "DEPTHSEL": 1, "DIVMODE": 2}, unwind=6,
                 cbmc_flags=["--max-field-sensitivity-array-size", "2048", "--sat-solver", "cadical"], note="DIV quotient value for operands in the signed 16-bit range"))
     qs.append(Q("optable", "C07_opcodes.cpp", "vh_optable", unwind=4))
+    for lib in ("call", "direct"):
+        for depth in (1, 2, 5, 1023, 1024):
+            big = depth > 100
+            qs.append(Q(f"driver_{lib}_depth{depth}", "driver.cpp", "vh_driver_depth", {"DEPTH": depth, "NS": 1}, unwind=8, lib=lib,
+                        unwindset={"vh_driver_depth": 2 * depth + 4, "vh_bytes": depth + 2, "run": 2 * depth + 6, "direct_run": 2 * depth + 6, "lid:run": 2 * depth + 6},
+                        cbmc_flags=["--max-field-sensitivity-array-size", "2100"], timeout=900 if big else None, tiers=("quick", "thorough")))
     return qs
 
 # ------------------------------------------------------------------------------------------- C03
